@@ -116,26 +116,26 @@ func (u *User) PutArbitrary(m map[string]string) {
 	}
 }
 
-func (u *User) IsOAuth2User() bool                { return u.OAuth2UID != "" }
-func (u *User) GetOAuth2UID() string              { return u.OAuth2UID }
-func (u *User) GetOAuth2Provider() string         { return u.OAuth2Provider }
-func (u *User) GetOAuth2AccessToken() string      { return u.OAuth2AccessToken }
-func (u *User) GetOAuth2RefreshToken() string     { return u.OAuth2RefreshToken }
-func (u *User) GetOAuth2Expiry() time.Time        { return u.OAuth2Expiry }
-func (u *User) PutOAuth2UID(s string)             { u.OAuth2UID = s }
-func (u *User) PutOAuth2Provider(s string)        { u.OAuth2Provider = s }
-func (u *User) PutOAuth2AccessToken(s string)     { u.OAuth2AccessToken = s }
-func (u *User) PutOAuth2RefreshToken(s string)    { u.OAuth2RefreshToken = s }
-func (u *User) PutOAuth2Expiry(t time.Time)       { u.OAuth2Expiry = t }
-func (u *User) GetOTPs() string                   { return u.OTPs }
-func (u *User) PutOTPs(s string)                  { u.OTPs = s }
-func (u *User) GetTOTPSecretKey() string          { return u.TOTPSecretKey }
-func (u *User) PutTOTPSecretKey(s string)         { u.TOTPSecretKey = s }
-func (u *User) GetSMSPhoneNumber() string         { return u.SMSPhone }
-func (u *User) PutSMSPhoneNumber(s string)        { u.SMSPhone = s }
-func (u *User) GetSMSPhoneNumberSeed() string     { return u.SMSSeed }
-func (u *User) GetRecoveryCodes() string          { return u.RecoveryCodes }
-func (u *User) PutRecoveryCodes(s string)         { u.RecoveryCodes = s }
+func (u *User) IsOAuth2User() bool             { return u.OAuth2UID != "" }
+func (u *User) GetOAuth2UID() string           { return u.OAuth2UID }
+func (u *User) GetOAuth2Provider() string      { return u.OAuth2Provider }
+func (u *User) GetOAuth2AccessToken() string   { return u.OAuth2AccessToken }
+func (u *User) GetOAuth2RefreshToken() string  { return u.OAuth2RefreshToken }
+func (u *User) GetOAuth2Expiry() time.Time     { return u.OAuth2Expiry }
+func (u *User) PutOAuth2UID(s string)          { u.OAuth2UID = s }
+func (u *User) PutOAuth2Provider(s string)     { u.OAuth2Provider = s }
+func (u *User) PutOAuth2AccessToken(s string)  { u.OAuth2AccessToken = s }
+func (u *User) PutOAuth2RefreshToken(s string) { u.OAuth2RefreshToken = s }
+func (u *User) PutOAuth2Expiry(t time.Time)    { u.OAuth2Expiry = t }
+func (u *User) GetOTPs() string                { return u.OTPs }
+func (u *User) PutOTPs(s string)               { u.OTPs = s }
+func (u *User) GetTOTPSecretKey() string       { return u.TOTPSecretKey }
+func (u *User) PutTOTPSecretKey(s string)      { u.TOTPSecretKey = s }
+func (u *User) GetSMSPhoneNumber() string      { return u.SMSPhone }
+func (u *User) PutSMSPhoneNumber(s string)     { u.SMSPhone = s }
+func (u *User) GetSMSPhoneNumberSeed() string  { return u.SMSSeed }
+func (u *User) GetRecoveryCodes() string       { return u.RecoveryCodes }
+func (u *User) PutRecoveryCodes(s string)      { u.RecoveryCodes = s }
 func (u *User) clone() *User {
 	c := *u
 	c.SecondaryEmails = append([]string(nil), u.SecondaryEmails...)
